@@ -14,8 +14,21 @@ def usable(spec):
     # only the families whose specs are plain gen_app specs: the planted-violation family (C08) renders components
     # outside the spec, the errors family (C06) gives inputs to error handlers, the routes family (C07) has its own
     # request scripts; those are judged by their own checks
-    return bool(spec) and all(k in spec for k in ("ctors", "handlers", "mws", "bp", "types")) and \
-        str(spec.get("klass")).split(":")[0] in ("free", "inclass", "scopes", "own", "mw", "names")
+    if not (bool(spec) and all(k in spec for k in ("ctors", "handlers", "mws", "bp", "types")) and
+            str(spec.get("klass")).split(":")[0] in ("free", "inclass", "scopes", "own", "mw", "names")):
+        return False
+    # one middleware registered twice (C05's subject) gives two stages with one name: the trace matcher tells
+    # components apart by name, so those applications are left to C05 and to the model-free counting oracle
+    seen = []
+
+    def walk(ops):
+        for op in ops:
+            if op[0] in ("wrap", "pre", "post"):
+                seen.append((op[0], op[1]))
+            elif op[0] == "nest":
+                walk(op[1]["ops"])
+    walk(spec["bp"])
+    return len(seen) == len(set(seen))
 
 
 def parse_line(line, mod):
